@@ -30,7 +30,7 @@ DataAt(i, n) == [ j \in 1..n |-> ((i + j + Phase) % 2) + 1 ]
 GInit == /\ Mode \in {"seq", "both"}
          /\ gp \in Names(P2PProtocols) /\ gst = InitState(gp) /\ hist = <<>> /\ dead = FALSE
 
-Step(t) ==
+GStep(t) ==
     LET m == Msg(t, DataAt(Len(hist), MsgArity(gp, t)))
         r == Apply(gp, gst, m)
     IN  /\ hist' = Append(hist, [msg |-> m, exp |-> r])
@@ -38,7 +38,7 @@ Step(t) ==
                    ELSE gst' = gst /\ dead' = TRUE
         /\ UNCHANGED gp
 
-GNext == ~dead /\ Len(hist) < MaxLen /\ \E t \in Msgs(ByName(gp)) : Step(t)
+GNext == ~dead /\ Len(hist) < MaxLen /\ \E t \in Msgs(ByName(gp)) : GStep(t)
 
 Emit == (dead \/ Len(hist) = MaxLen) =>
            PrintT(<<"VEC", ToJson([kind |-> "seq", proto |-> gp, steps |-> hist])>>)
